@@ -14,7 +14,8 @@ META = {
     'explanation': 'C11: DTCWTInverse is run on a FREE symbolic pyramid whose shapes are those of the reference pyramid for the configured image size; every output '
                    'sample minus the basis-response row of dtcwt.Transform2d.inverse must stay within tau. For every mask of absent inputs (None or torch.tensor([]) '
                    'for the lowpass or any level) the run is compared with the full symbolic run after substituting zeros for the absent atoms.',
-    'bounds': {'quick': {'pyramids': 'filter pairs / sizes / J of C03 quick', 'absence masks': 'all 3^(J+1) masks over {present, None, torch.tensor([])} for J<=2 on sizes 8x8, 12x10, 6x6 (one filter pair); 8 masks for J=3'},
+    'bounds': {'added_families': ['everything C03 adds except chlast', 'contexts with mask PNP on 8x8'],
+               'quick': {'pyramids': 'filter pairs / sizes / J of C03 quick', 'absence masks': 'all 3^(J+1) masks over {present, None, torch.tensor([])} for J<=2 on sizes 8x8, 12x10, 6x6 (one filter pair); 8 masks for J=3'},
                'thorough': {'pyramids': 'as C03 thorough', 'absence masks': 'all masks J<=2 on 6 sizes x 3 filter pairs; 27 masks J=3'}},
     'outside': C03.META['outside'],
     'assumptions': ['real-arithmetic semantics', 'dtcwt 0.14 Transform2d.inverse is linear (checked per configuration)'],
